@@ -415,7 +415,56 @@ fn char_gap(tier: &str, out: &mut Out) {
     }
 }
 
+/// `konst::for_range!{x in a..b => ..}` (integer types): the values bound, vs std's `a..b`
+macro_rules! for_range_ty {
+    ($T:ty, $name:literal, $out:ident) => {{
+        let min = <$T>::MIN;
+        let max = <$T>::MAX;
+        let mut vals: Vec<$T> = vec![min, min + 1, min + 2, max - 2, max - 1, max, 0 as $T, 1 as $T, 2 as $T, 5 as $T, 100 as $T];
+        #[allow(unused_comparisons)]
+        if min < 0 as $T {
+            vals.extend_from_slice(&[(0 as $T).wrapping_sub(1), (0 as $T).wrapping_sub(2), (0 as $T).wrapping_sub(100)]);
+        }
+        vals.sort();
+        vals.dedup();
+        for &a in &vals {
+            for &b in &vals {
+                let n = (a..b).take(130).count();
+                if n >= 130 {
+                    continue;
+                }
+                let ora = fin((a..b).map(|x| x.to_string()).collect());
+                let imp = catch(|| {
+                    let mut v: Vec<String> = Vec::new();
+                    konst::for_range! {x in a..b =>
+                        v.push(x.to_string());
+                        guard(&v, n + 2);
+                    }
+                    fin(v)
+                });
+                $out.emit(&format!("rg.range.fr {} {} {}", $name, a, b), &imp, &ora, true);
+            }
+        }
+    }};
+}
+
+fn for_range_all(out: &mut Out) {
+    for_range_ty!(u8, "u8", out);
+    for_range_ty!(i8, "i8", out);
+    for_range_ty!(u16, "u16", out);
+    for_range_ty!(i16, "i16", out);
+    for_range_ty!(u32, "u32", out);
+    for_range_ty!(i32, "i32", out);
+    for_range_ty!(u64, "u64", out);
+    for_range_ty!(i64, "i64", out);
+    for_range_ty!(u128, "u128", out);
+    for_range_ty!(i128, "i128", out);
+    for_range_ty!(usize, "usize", out);
+    for_range_ty!(isize, "isize", out);
+}
+
 pub fn run(tier: &str, seed: u64, out: &mut Out) {
+    for_range_all(out);
     t_u8::run(tier, seed, out);
     t_i8::run(tier, seed, out);
     t_u16::run(tier, seed, out);
